@@ -396,7 +396,7 @@ class TaggedUnionConverter(UnionConverter):
         if self.external is False:
             try:
                 # don't give 'tag' to variants
-                val = val.copy()
+                val = dict(val)
                 tag = val.pop(self.tag)
             except KeyError:
                 raise ParseInterrupt()
@@ -428,7 +428,7 @@ class TaggedUnionConverter(UnionConverter):
         if self.external is False:
             try:
                 # don't give 'tag' to variants
-                val = val.copy()
+                val = dict(val)
                 tag = val.pop(self.tag)
             except KeyError:
                 return WrongTypeError(f"mapping with key '{self.tag}' => {self.tag_expected()}", val)
